@@ -9,6 +9,8 @@ import OdlModel.Model.Wavelet
 import OdlModel.Gen.WaveletPad
 import OdlModel.Lemmas.Fourier
 import OdlModel.Lemmas.Wavelet
+import OdlModel.Lemmas.Phase
+import Mathlib.Analysis.SpecialFunctions.Trigonometric.Basic
 
 open OdlModel.Fourier
 
@@ -270,10 +272,6 @@ theorem C18.pyfftw_planning_old_guard_destroys_real_input (realIn hc fresh destr
 
 /-! ## Phases of the continuous transform (`dft_preprocess_data`, `dft_postprocess_data`) -/
 
-namespace OdlModel.C18
-/-- Equality of phase exponents modulo 2 (`exp(iπ a) = exp(iπ b)`). -/
-def EqMod2 (a b : Rat) : Prop := ∃ z : Int, a - b = 2 * (z : Rat)
-end OdlModel.C18
 open OdlModel.C18
 
 /-- **Phase factorisation.**  For every length `n ≥ 1`, node indices `k`, `j < n`, shift
@@ -380,6 +378,94 @@ theorem C18.ft_inverse_factors (n : Nat) (shift plus : Bool) (t c : Rat) (k : Na
       simp only [preExp, if_true]
       generalize k % 2 = r
       push_cast; ring
+
+/-! ## The continuous transform as a whole (`FourierTransform`, `FourierTransformInverse`) -/
+
+/-- **The continuous-FT approximation recovers its input through its inverse.**  Over any
+field with a primitive `n`-th root of unity, for ANY phase function `e` (a character of
+`(ℚ,+)` of period 2, e.g. `q ↦ exp(iπ q)`), any non-vanishing kernel factors `amp`, any
+reciprocal nodes `c`, offset `t`, both shift options and both signs: one axis of
+`FourierTransformInverse._call_numpy` (sign flipped: divide by the kernel, flipped phase,
+inverse DFT with the coded normalisation, flipped pre-processing) applied to one axis of
+`FourierTransform._call_numpy` returns the input, for every `n` and every input. -/
+theorem C18.ft_inverse {K : Type} [Field K] (e : Rat → K) (he : IsPhase e)
+    (w : K) (n : Nat) (hn : 0 < n) (hnK : (n : K) ≠ 0) (hw : IsPrimRoot w n)
+    (amp : Nat → K) (hamp : ∀ j, j < n → amp j ≠ 0) (c : Nat → Rat) (t : Rat)
+    (shift plus : Bool) (f : Nat → K) (k : Nat) (hk : k < n) :
+    ftInverseAxis e amp c t shift (!plus) w w⁻¹ n
+      (ftForwardAxis e amp c t shift plus w w⁻¹ n f) k = f k := by
+  unfold ftInverseAxis
+  have hcongr := dftInverseNp_congr (!plus) w w⁻¹ n
+    (fun j => e (postExp (!plus) t (c j)) / amp j * ftForwardAxis e amp c t shift plus w w⁻¹ n f j)
+    (dftForwardNp plus w w⁻¹ n (fun k => e (preExp n shift plus k) * f k))
+    (by
+      intro j hj
+      unfold ftForwardAxis
+      have h0 := (C18.ft_inverse_factors n shift plus t (c j) 0).1
+      have : e (postExp (!plus) t (c j)) * e (postExp plus t (c j)) = 1 := by
+        rw [← he.add, add_comm, h0, he.zero]
+      have ha := hamp j hj
+      generalize dftForwardNp plus w w⁻¹ n (fun k => e (preExp n shift plus k) * f k) j = D
+      field_simp
+      linear_combination D * this) k
+  rw [hcongr, C18.dft_inverse w n hn hnK hw plus _ k hk]
+  have h1 := (C18.ft_inverse_factors n shift plus t 0 k).2
+  have : e (preExp n shift (!plus) k) * e (preExp n shift plus k) = 1 := by
+    rw [← he.add, add_comm, he.eq_of_eqMod2 h1, he.zero]
+  linear_combination (f k) * this
+
+/-- **The forward transform is the discretised Fourier integral.**  With `e = exp(iπ ·)`
+and the FFT root `w = e(-2/n) = exp(-2πi/n)`, one axis of `FourierTransform._call_numpy` on the
+full reciprocal grid computes `amp_j · Σ_k f_k · exp(± i x_k ξ_j)` (`x_k = x0 + k s`,
+`ξ_j = c_j π/s`), for every `n ≥ 1`, shift, sign, offset and input — pre- and post-processing
+factors and the DFT kernel multiply up to exactly the Fourier kernel. -/
+theorem C18.ft_forward_is_fourier_sum {K : Type} [Field K] (e : Rat → K) (he : IsPhase e)
+    (n : Nat) (hn : 1 ≤ n) (hnK : (n : K) ≠ 0) (amp : Nat → K) (t : Rat)
+    (shift plus : Bool) (f : Nat → K) (j : Nat) (hj : j < n) :
+    ftForwardAxis e amp (recipGrid n shift false).point t shift plus
+        (e (-2 / n)) (e (-2 / n))⁻¹ n f j
+      = amp j * ∑ k ∈ Finset.range n,
+          f k * e (sgnOf plus * ((t + k) * (recipGrid n shift false).point j)) := by
+  set cj := (recipGrid n shift false).point j with hcj
+  have hinv : (e (-2 / n))⁻¹ = e (2 / n) := by
+    have := he.neg_mul (2 / (n : Rat))
+    rw [show -(2 / (n : Rat)) = -2 / n by ring] at this
+    exact inv_eq_of_mul_eq_one_right this
+  have key : ∀ k : Nat, e (postExp plus t cj) * (e (preExp n shift plus k) *
+      e (sgnOf plus * 2 / n) ^ (k * j)) = e (sgnOf plus * ((t + k) * cj)) := by
+    intro k
+    rw [he.pow, ← he.add, ← he.add]
+    apply he.eq_of_eqMod2
+    obtain ⟨z, hz⟩ := C18.phase_factorisation n hn shift plus t k j hj
+    exact ⟨z, by rw [← hz, ← hcj]; push_cast; ring⟩
+  unfold ftForwardAxis
+  rw [hinv]
+  cases plus
+  · have hr : e (-2 / (n : Rat)) = e (sgnOf false * 2 / n) := by simp [sgnOf]
+    simp only [dftForwardNp, Bool.false_eq_true, if_false, dftSum_eq]
+    rw [Finset.mul_sum, Finset.mul_sum]
+    apply Finset.sum_congr rfl
+    intro k _
+    rw [hr, ← key k]; ring
+  · have hr : e (2 / (n : Rat)) = e (sgnOf true * 2 / n) := by simp [sgnOf]
+    simp only [dftForwardNp, npIfft, if_true, dftSum_eq]
+    rw [mul_div_cancel₀ _ hnK, Finset.mul_sum, Finset.mul_sum]
+    apply Finset.sum_congr rfl
+    intro k _
+    rw [hr, ← key k]; ring
+
+/-- Non-vacuity of `IsPhase`: `q ↦ exp(iπ q)` over `ℂ` is a phase function, and it is not
+trivial (`e 1 = -1`). -/
+example : IsPhase (fun q : Rat => Complex.exp (Real.pi * Complex.I * (q : ℂ))) ∧
+    Complex.exp (Real.pi * Complex.I * ((1 : Rat) : ℂ)) = -1 := by
+  refine ⟨⟨?_, ?_⟩, ?_⟩
+  · intro a b; show Complex.exp _ = Complex.exp _ * Complex.exp _
+    rw [← Complex.exp_add]; congr 1; push_cast; ring
+  · show Complex.exp _ = 1
+    rw [show (Real.pi : ℂ) * Complex.I * ((2 : Rat) : ℂ) = 2 * Real.pi * Complex.I by push_cast; ring]
+    exact Complex.exp_two_pi_mul_I
+  · rw [show (Real.pi : ℂ) * Complex.I * ((1 : Rat) : ℂ) = Real.pi * Complex.I by push_cast; ring]
+    exact Complex.exp_pi_mul_I
 
 /-! ## Wavelets: ODL's own part (PyWavelets' filter bank is a parameter) -/
 
